@@ -397,6 +397,10 @@ func (s *Sim) Request(ctx context.Context, from, to p2p.PeerID, procedure string
 		return p2p.VerifResponse(to, nil, errors.New("sim: request budget of the step exhausted"))
 	}
 	fault := s.nextRPCFault()
+	if rn := s.nodeByPeer(to); rn != nil && rn.Up && s.Stalled(rn) && s.linked(from, to) {
+		fault = rpcTimeout // a suspended process answers nothing
+		s.count("rpc_to_stalled_node")
+	}
 	var respData []byte
 	var respErr error
 	switch {
@@ -521,9 +525,13 @@ func (s *Sim) planRPC() {
 }
 
 // Step runs fn as one step of node n: everything the node publishes or emits is collected afterwards.
-func (s *Sim) Step(n *Node, what string, fn func()) {
+func (s *Sim) Step(n *Node, what string, fn func()) (ran bool) {
 	if !n.Up {
-		return
+		return false
+	}
+	if s.Stalled(n) {
+		s.Stats["step_skipped_node_stalled"]++
+		return false
 	}
 	s.Steps++
 	if n.armPending && n.FS != nil {
@@ -593,7 +601,11 @@ func (s *Sim) Step(n *Node, what string, fn func()) {
 		body()
 	}
 	s.cur = nil
+	return true
 }
+
+// Stalled reports whether node n's process is suspended right now.
+func (s *Sim) Stalled(n *Node) bool { return n.StalledUntil > s.Now() }
 
 // ArmCrash arms node n's disk to kill the node at the k-th file-system call of one of its next steps.
 func (s *Sim) ArmCrash(n *Node, k, tear int, power bool) {
@@ -733,6 +745,12 @@ func (s *Sim) deliverGossip(from, to p2p.PeerID, topic string, data []byte) {
 		s.Stats["gossip_cut"]++
 		return
 	}
+	if sn := s.nodeByPeer(to); sn != nil && sn.Up && s.Stalled(sn) {
+		// the connection stays up while the process is suspended: the message waits in the socket buffer
+		s.Stats["gossip_held_for_stalled_node"]++
+		s.At(sn.StalledUntil-s.Now(), "gossip "+topic, func() { s.deliverGossip(from, to, topic, data) })
+		return
+	}
 	h := msgHash(topic, data)
 	if s.seen[to][h] {
 		return
@@ -784,6 +802,11 @@ func (s *Sim) StartTicks(n *Node) {
 			return
 		}
 		k++
+		if s.Stalled(n) {
+			// a suspended process misses its ticks (a Go ticker drops them) and goes on with the next one after it
+			s.At(time.Second, "tick "+n.Name, tick)
+			return
+		}
 		s.Step(n, "tick", func() {
 			n.Pool.VerifReorg()
 			before := n.Exec.VerifQueueLen()
